@@ -1,7 +1,7 @@
 """C18 - Diff and change reports agree with the real differences."""
 import re
 
-from cv import flow, pred, rules
+from cv import flow, inline, pred, rules
 from cv.rules import events_of
 from props import common
 
@@ -40,16 +40,40 @@ def run(ck, w):
     if b is None:
         ck.fail(o, DM, "anchor-missing", "diff_metadata not found")
     else:
+        # a private bool helper that holds the comparison (`metadata_differs(a, b)`) is expanded in a copy first: the
+        # enumerator is path-sensitive and carries the helper's true / false into the caller's branch
+        bx, n_exp = inline.expand_predicates(lib, b)
         try:
-            paths = pred.enumerate_paths(lib, b, markers=r"^change::EntryChange::(changed|unchanged)$")
+            paths = pred.enumerate_paths(lib, bx, markers=r"^change::EntryChange::(changed|unchanged)$")
         except (pred.NotLoopFree, pred.TooManyPaths) as ex:
             paths = None
             ck.fail(o, DM, "not a finite predicate", str(ex))
         if paths is not None:
             params = [b.local_names.get(i, str(i)) for i in range(1, b.arg_count + 1)]
+            kadt = lib.adts.get("kind::Kind")
+            kidx = {v["name"]: i for i, v in enumerate(kadt["variants"])} if kadt else {}
 
             def eqa(acc):
                 return ("eq", frozenset("%s(%s)" % (acc, p) for p in params))
+
+            def kind_possible(c, variant):
+                """Can the entry be of this kind on a path with constraints c? False only if a test on kind(..) excludes it:
+                `kind == Kind::X` decided, or a `match kind` arm taken."""
+                tested = False
+                for a, v in c.items():
+                    if a[0] == "eq" and any(x.startswith("kind(") for x in a[1]) and any(("Kind::" + variant) in x for x in a[1]):
+                        tested = True
+                        if v is False:
+                            return False, True
+                    elif a[0] == "eq" and any(x.startswith("kind(") for x in a[1]) and any("Kind::" in x for x in a[1]) and v is True:
+                        return False, True          # equal to some other variant
+                    elif a[0] == "discr" and str(a[1]).startswith("kind("):
+                        tested = True
+                        if isinstance(v, int) and v != kidx.get(variant):
+                            return False, True
+                        if isinstance(v, tuple) and v and v[0] == "other" and kidx.get(variant) in v[1:]:
+                            return False, True
+                return True, tested
             un = [p for p in paths if any(m.endswith("::unchanged") for m in p["markers"])]
             chg = [p for p in paths if any(m.endswith("::changed") for m in p["markers"])]
             problems = []
@@ -61,18 +85,14 @@ def run(ck, w):
                 for acc in ("kind", "owner", "unix_mode"):
                     if c.get(eqa(acc)) is not True:
                         problems.append("an 'unchanged' path does not require equal %s" % acc)
-                # kind == File / Symlink tests
-                kf = [a for a in c if a[0] == "eq" and any(x.startswith("kind(") for x in a[1]) and any("Kind::File" in x for x in a[1])]
-                ks = [a for a in c if a[0] == "eq" and any(x.startswith("kind(") for x in a[1]) and any("Kind::Symlink" in x for x in a[1])]
-                if not kf or not ks:
-                    problems.append("an 'unchanged' path does not test the kind for File / Symlink")
-                    continue
-                if c[kf[0]] is True:
+                fp, ft = kind_possible(c, "File")
+                sp, st_ = kind_possible(c, "Symlink")
+                if fp:
                     file_seen = True
                     for acc in ("size", "mtime"):
                         if c.get(eqa(acc)) is not True:
                             problems.append("for files, 'unchanged' does not require equal %s" % acc)
-                if c[ks[0]] is True:
+                if sp:
                     sym_seen = True
                     if c.get(eqa("symlink_target")) is not True:
                         problems.append("for symlinks, 'unchanged' does not require an equal target")
